@@ -121,17 +121,32 @@ fn check<const N: usize>(unit: &str, x: &BigInt<N>, y: &BigInt<N>, sh: u32) -> O
             None
         },
         "BigInt::find_wnaf" | "BigInteger::find_wnaf" | "c15_find_wnaf_n1_high" => {
-            for w in 2..8usize {
-                if let Some(d) = x.find_wnaf(w) {
-                    let mut acc = num_bigint::BigInt::zero();
-                    for (i, z) in d.iter().enumerate() {
-                        acc += num_bigint::BigInt::from(*z) << i;
-                    }
-                    if acc != num_bigint::BigInt::from(bx.clone()) {
-                        return Some((format!("w={w} reconstructs {acc}"), format!("{bx}")));
+            // every window the API accepts (2..=63), plus the rejected ones
+            for w in (2..=8usize).chain([16, 31, 32, 33, 62, 63]) {
+                let xc = *x;
+                let r = std::panic::catch_unwind(move || xc.find_wnaf(w));
+                let d = match r {
+                    Ok(Some(d)) => d,
+                    Ok(None) => return Some((format!("w={w} rejected"), format!("{bx}"))),
+                    Err(_) => return Some((format!("w={w} panics"), format!("{bx}"))),
+                };
+                let mut acc = num_bigint::BigInt::zero();
+                for (i, z) in d.iter().enumerate() {
+                    acc += num_bigint::BigInt::from(*z) << i;
+                }
+                if acc != num_bigint::BigInt::from(bx.clone()) {
+                    return Some((format!("w={w} reconstructs {acc}"), format!("{bx}")));
+                }
+                // digit constraints: zero or odd with |z| < 2^(w-1); a non-zero digit is followed by w-1 zeros
+                let lim = 1i128 << (w - 1);
+                for (i, z) in d.iter().enumerate() {
+                    if *z != 0 {
+                        if z % 2 == 0 || (*z as i128).abs() >= lim { return Some((format!("w={w}: digit {z} at position {i} violates the digit constraint"), format!("{bx}"))); }
+                        if d[i + 1..].iter().take(w - 1).any(|y| *y != 0) { return Some((format!("w={w}: non-zero digits closer than w at position {i}"), format!("{bx}"))); }
                     }
                 }
             }
+            if x.find_wnaf(1).is_some() || x.find_wnaf(64).is_some() || x.find_wnaf(0).is_some() { return Some(("window outside 2..64 accepted".into(), format!("{bx}"))); }
             None
         },
         _ => None,
